@@ -73,11 +73,15 @@ def variant(draw, n):
 def table_case(draw, min_rows=1, max_rows=120, float_coords=False):
     n = draw(st.integers(min_rows, max_rows))
     degrees = draw(st.booleans())
-    dt = {c: draw(st.sampled_from(["f8", "f8", "f4", "i4", "i8"])) for c in ("ra", "dec", "w", "z")}
+    dt = {c: draw(st.sampled_from(["f8", "f8", "f8", "f4", "i4", "i8", "i2", "u2", "u4", "u1"])) for c in ("ra", "dec", "w", "z")}
     if float_coords:  # k-means needs distinct positions
         dt["ra"] = dt["dec"] = "f8"
     def col(name, lo, hi):
-        if dt[name].startswith("i"):
+        if dt[name][0] in "iu":
+            if dt[name][0] == "u":
+                lo = max(lo, 0)
+            if dt[name] == "u1":
+                hi = min(hi, 255)
             return draw(st.lists(st.integers(int(np.ceil(lo)), int(np.floor(hi))), min_size=n, max_size=n))
         return draw(st.lists(gen.floats(lo, hi), min_size=n, max_size=n))
     if degrees:
@@ -88,7 +92,7 @@ def table_case(draw, min_rows=1, max_rows=120, float_coords=False):
     if draw(st.sampled_from([False, False, True])):
         table["index"] = list(draw(st.permutations(list(range(n)))))  # data frame with non-default row labels
     if draw(st.booleans()):
-        table["w"] = col("w", 0.01 if not dt["w"].startswith("i") else 1.0, 10.0)  # positive: a patch of total weight 0 has no defined centre
+        table["w"] = col("w", 0.01 if dt["w"][0] not in "iu" else 1.0, 10.0)  # positive: a patch of total weight 0 has no defined centre
     if draw(st.booleans()):
         table["z"] = col("z", 0.0, 3.0)
     return n, degrees, table
@@ -108,12 +112,17 @@ def case_strategy(draw):
         K = draw(st.integers(1, min(draw(st.sampled_from([6, 6, 6, 13])), len(uniq))))  # sometimes two-digit patch ids
         idx = draw(st.lists(st.integers(0, len(uniq) - 1), min_size=K, max_size=K, unique=True))
         case["centers"] = uniq[idx].tolist()
+        if draw(st.integers(0, 5)) == 0:
+            # redundant patch-index column next to explicit centres: documented to be ignored
+            table["pid"] = draw(st.lists(st.integers(0, K - 1), min_size=n, max_size=n))
+            table["dtypes"]["pid"] = "i8"
+            case["stale_pid"] = True
     elif mode == "ids":
         K = draw(st.integers(1, min(draw(st.sampled_from([6, 6, 6, 13])), n)))
         rest = draw(st.lists(st.integers(0, K - 1), min_size=n - K, max_size=n - K))
         pid = draw(st.permutations(list(range(K)) + rest))
         table["pid"] = list(pid)
-        table["dtypes"]["pid"] = draw(st.sampled_from(["i8", "i4"]))
+        table["dtypes"]["pid"] = draw(st.sampled_from(["i8", "i4", "i2", "u2", "u1", "u4"]))
     else:
         if n < 12:
             case["mode"] = "centers"
@@ -135,7 +144,7 @@ def create(case, var, tmp, name, tape_stats=None):
 
     table = case["table"]
     src = sources.write_source(case["source"], table, tmp, row_group_size=case.get("row_group"))
-    kw = dict(sources.column_names(table, use_pid=case["mode"] == "ids"))
+    kw = dict(sources.column_names(table, use_pid=case["mode"] == "ids" or bool(case.get("stale_pid"))))
     kw.update(degrees=case["degrees"], chunksize=var["chunksize"], progress=var["progress"], max_workers=var["workers"])
     if case["mode"] == "centers":
         kw["patch_centers"] = AngularCoordinates(np.array(case["centers"], dtype=float))
@@ -198,7 +207,7 @@ def run_case(case):
     table = case["table"]
     n = case["n"]
     names, exp = sources.expected_records(table, case["degrees"])
-    ck = Checker(classes=[f"source:{case['source']}", f"mode:{case['mode']}", "degrees" if case["degrees"] else "radian"])
+    ck = Checker(classes=[f"source:{case['source']}", f"mode:{case['mode']}", "degrees" if case["degrees"] else "radian"] + (["centres+stale-patch-column"] if case.get("stale_pid") else []))
     for c in ("ra", "dec"):
         ck.cls(f"dtype:{table['dtypes'][c]}")
     if case["mode"] == "centers":
